@@ -82,6 +82,7 @@ type lcRig struct {
 	waitRet   bool
 	stopped   bool
 	underLock int
+	underOnce int // callbacks parked inside the shutdown Once while the instance-list mutex is NOT held (never on the unchanged tree)
 	hooked    map[string]bool
 	rush      bool // a signal handler is waiting for the shutdown lock: callbacks under it do not park
 }
@@ -334,9 +335,18 @@ func (r *lcRig) callback(label, kind string) error {
 		r.c.Probe("callback-under-process-shutdown-lock")
 		r.cbSeq++
 		if !r.rush {
-			r.underLock++
-			r.c.Park(fmt.Sprintf("hook.cbl/%s/%s#%d", label, kind, r.cbSeq), "cb:"+label)
-			r.underLock--
+			if !Applied("shutdownlock") || casket.VerifShutdownLockHeld() {
+				r.underLock++
+				r.c.Park(fmt.Sprintf("hook.cbl/%s/%s#%d", label, kind, r.cbSeq), "cb:"+label)
+				r.underLock--
+			} else {
+				// the callbacks run without the instance-list mutex: reloads and stops may
+				// interleave with them (only further signals would wait, for the Once)
+				r.c.Probe("shutdown-callback-outside-the-instance-lock")
+				r.underOnce++
+				r.c.Park(fmt.Sprintf("hook.cbl/%s/%s#%d", label, kind, r.cbSeq), "cb:"+label)
+				r.underOnce--
+			}
 		}
 		if r.cleanup {
 			return nil
@@ -493,8 +503,8 @@ func runLifecycle(c *sim.Ctl) {
 	c.Loop(3, func() bool { return r.exited || r.waitRet || (r.opsDone && r.sigLeft == 0) })
 	if !r.exited && !r.waitRet {
 		// every history ends with a graceful process shutdown
-		c.Drain(300, 100*time.Millisecond, func() bool { return (r.opsDone && r.noLockHeld()) || r.exited || r.waitRet })
-		if !r.exited && !r.waitRet && r.noLockHeld() {
+		c.Drain(300, 100*time.Millisecond, func() bool { return (r.opsDone && r.noLockHeld() && r.underOnce == 0) || r.exited || r.waitRet })
+		if !r.exited && !r.waitRet && r.noLockHeld() && r.underOnce == 0 {
 			r.sigLeft = 0
 			r.sendSignal(syscall.SIGTERM)
 			if !c.Drain(300, 100*time.Millisecond, func() bool { return r.exited || r.waitRet }) {
@@ -649,7 +659,7 @@ func (r *lcRig) events(add func(sim.Event)) {
 	if r.started && r.sigLeft > 0 {
 		for _, s := range []os.Signal{os.Interrupt, syscall.SIGTERM, syscall.SIGQUIT, syscall.SIGHUP} {
 			s := s
-			contended := !r.noLockHeld() && (s == syscall.SIGTERM || s == os.Interrupt && r.nINT == 0)
+			contended := (!r.noLockHeld() || r.underOnce > 0) && (s == syscall.SIGTERM || s == os.Interrupt && r.nINT == 0)
 			if contended {
 				// This handler will wait for the sync.Once / mutex held by the parked
 				// callback. A goroutine waiting for a mutex is not durably blocked, so
